@@ -338,6 +338,7 @@ def driveLine (d : DriverState) (line : String) : DriverState × Option String :
   | "A" :: rest => (d, some (driveAck rest))
   | "P" :: rest => (d, some (drivePure rest))
   | "L" :: rest => (d, some (driveLocks rest))
+  | "S" :: _ => (d, some "R clean")   -- free-running stress: only the monitors speak; the model expects them to be silent
   | "C" :: rest0 =>
     let rest := rest0.filter (fun t => !t.startsWith "#")
     (match parseCfg rest with
